@@ -198,7 +198,7 @@ def exc_bucket(e):
 
 import re as _re
 
-_ID_RE = _re.compile(r'(data-djc-id-|djc-render-id="|_RENDERED [^,>]*,)(\w{6})')
+_ID_RE = _re.compile(r'(data-djc-id-|djc-render-id="|_RENDERED [^,>]*,|data-echo=")(\w{6})(?![\w])')
 
 
 def normalize_ids(s):
